@@ -15,6 +15,9 @@
 (*             each push, and the inductive invariant says                   *)
 (*                  DecCfg(configuration after push i, symbol i)             *)
 (*                        = configuration before push i          for all i.  *)
+(*   CfgStepRev, MessageRev   the other direction (bits-back): decoding off  *)
+(*             ANY valid configuration and encoding again restores it, for    *)
+(*             one symbol and for messages of any length (second half).       *)
 (* K, N, B are as in AnsStep (N = 2^PRECISION, B = 2^W, K*N*B = 2^S).         *)
 EXTENDS AnsStep, Sequences
 
@@ -194,4 +197,179 @@ THEOREM Message == Spec => []Inv
     BY <2>1, <2>2 DEF Next
 <1>3. QED
   BY <1>1, <1>2, PTL DEF Spec
+
+-----------------------------------------------------------------------------
+(* The OTHER direction (bits-back coding, C01 "decode then encode"): from ANY *)
+(* valid configuration -- not only one produced by encoding -- decoding a     *)
+(* symbol whose slot contains the quantile and encoding it again returns      *)
+(* exactly the configuration one started from (CfgStepRev), and so does a     *)
+(* whole message of any length (MessageRev).  Here the words on the bulk must *)
+(* be words (< B), because a refilled word becomes part of the state.         *)
+CfgInvW(x) == CfgInv(x) /\ \A i \in 1..Len(x.bulk) : x.bulk[i] < B
+Hit(x, c, p) == Quant(x.state, N) >= c /\ Quant(x.state, N) < c + p
+
+LEMMA FrontAppend == ASSUME NEW s \in Seq(Nat), s # <<>>
+                     PROVE /\ SubSeq(s, 1, Len(s) - 1) \in Seq(Nat)
+                           /\ Append(SubSeq(s, 1, Len(s) - 1), s[Len(s)]) = s
+                           /\ s[Len(s)] \in Nat /\ Len(s) \in 1..Len(s)
+                           /\ Len(SubSeq(s, 1, Len(s) - 1)) = Len(s) - 1
+                           /\ \A i \in 1..(Len(s) - 1) : SubSeq(s, 1, Len(s) - 1)[i] = s[i]
+  OBVIOUS
+
+THEOREM CfgStepRev ==
+    ASSUME NEW x, CfgInvW(x), NEW c \in Nat, NEW p \in Nat, p >= 1, c + p <= N, Hit(x, c, p)
+    PROVE  /\ CfgInvW(DecCfg(x, c, p))
+           /\ EncCfg(DecCfg(x, c, p), c, p) = x
+<1> DEFINE e == x.state
+<1> DEFINE ne == x.bulk # <<>>
+<1> DEFINE w == IF ne THEN x.bulk[Len(x.bulk)] ELSE 0
+<1> DEFINE s1 == Dec(e, N, c, p)
+<1> DEFINE refill == s1 < T(K, N) /\ ne
+<1> DEFINE st == IF refill THEN s1 * B + w ELSE s1
+<1> DEFINE fl == st >= p * L(K, B)
+<1> DEFINE d1 == IF refill THEN SubSeq(x.bulk, 1, Len(x.bulk) - 1) ELSE x.bulk
+<1>0. /\ e \in Nat /\ x.bulk \in Seq(Nat) /\ x = [state |-> e, bulk |-> x.bulk]
+      /\ e < M(K, N, B) /\ (ne => e >= T(K, N)) /\ ne \in BOOLEAN
+      /\ \A i \in 1..Len(x.bulk) : x.bulk[i] < B
+  BY DEF CfgInvW, CfgInv, Cfgs
+<1>1. w \in Nat /\ w < B /\ B > 0
+  <2>1. B > 0
+    BY Widths, SMT
+  <2>2. CASE ne
+    BY <2>1, <2>2, <1>0, FrontAppend
+  <2>3. CASE ~ne
+    BY <2>1, <2>3
+  <2>4. QED
+    BY <2>2, <2>3
+<1>2. Quant(e, N) >= c /\ Quant(e, N) < c + p
+  BY DEF Hit
+<1>3. /\ st < M(K, N, B)
+      /\ (ne /\ ~refill) => st >= T(K, N)
+      /\ refill => st >= T(K, N)
+      /\ fl <=> refill
+      /\ refill => (st % B = w /\ st \div B = s1)
+      /\ Enc(s1, N, c, p) = e
+  BY <1>0, <1>1, <1>2, Widths, DecodeStep
+<1>4. s1 \in Nat /\ st \in Nat
+  <2>1. N > 0
+    BY Widths, SMT
+  <2>2. e \div N \in Nat /\ e % N \in Nat
+    BY <2>1, <1>0, Widths, DivModFacts
+  <2>3. (e \div N) * p \in Nat /\ Quant(e, N) - c \in Nat
+    BY <2>2, <1>2, SMT DEF Quant
+  <2>4. s1 \in Nat
+    BY <2>3, SMT DEF Dec
+  <2>5. s1 * B \in Nat
+    BY <2>4, Widths, SMT
+  <2>6. QED
+    BY <2>4, <2>5, <1>1, SMT
+<1>5. DecCfg(x, c, p) = [state |-> st, bulk |-> d1]
+  BY DEF DecCfg
+<1>6. /\ d1 \in Seq(Nat) /\ \A i \in 1..Len(d1) : d1[i] < B
+      /\ (d1 # <<>>) => ne
+      /\ refill => Append(d1, w) = x.bulk
+  <2>1. CASE refill
+    BY <2>1, <1>0, FrontAppend
+  <2>2. CASE ~refill
+    BY <2>2, <1>0
+  <2>3. QED
+    BY <2>1, <2>2
+<1>7. CfgInvW(DecCfg(x, c, p))
+  <2>1. (d1 # <<>>) => st >= T(K, N)
+    BY <1>3, <1>6
+  <2>2. QED
+    BY <2>1, <1>3, <1>4, <1>5, <1>6 DEF CfgInvW, CfgInv, Cfgs
+<1>8. EncCfg([state |-> st, bulk |-> d1], c, p)
+        = [state |-> Enc(IF fl THEN st \div B ELSE st, N, c, p), bulk |-> IF fl THEN Append(d1, st % B) ELSE d1]
+  BY DEF EncCfg
+<1>9. CASE refill
+  <2>1. fl /\ st \div B = s1 /\ st % B = w /\ Append(d1, w) = x.bulk
+    BY <1>9, <1>3, <1>6
+  <2>2. EncCfg([state |-> st, bulk |-> d1], c, p) = [state |-> e, bulk |-> x.bulk]
+    BY <2>1, <1>8, <1>3
+  <2>3. QED
+    BY <2>2, <1>0, <1>5, <1>7
+<1>10. CASE ~refill
+  <2>1. ~fl /\ st = s1 /\ d1 = x.bulk
+    BY <1>10, <1>3
+  <2>2. EncCfg([state |-> st, bulk |-> d1], c, p) = [state |-> e, bulk |-> x.bulk]
+    BY <2>1, <1>8, <1>3
+  <2>3. QED
+    BY <2>2, <1>0, <1>5, <1>7
+<1>11. QED
+  BY <1>9, <1>10
+
+(* The machine that decodes a whole message off an arbitrary valid configuration. *)
+Pop(c, p) == /\ Hit(cf, c, p)
+             /\ cf' = DecCfg(cf, c, p)
+             /\ hist' = Append(hist, cf)
+             /\ syms' = Append(syms, <<c, p>>)
+NextRev == \E cp \in Syms : Pop(cp[1], cp[2])
+SpecRev == Init /\ [][NextRev]_vars
+ASSUME StartW == CfgInvW(cf0)
+
+InvRev == /\ CfgInvW(cf)
+          /\ hist \in Seq(Cfgs) /\ syms \in Seq(Syms) /\ Len(hist) = Len(syms)
+          /\ (hist = <<>> => cf = cf0) /\ (hist # <<>> => hist[1] = cf0)
+          /\ \A i \in 1..Len(hist) : EncCfg(After(i), syms[i][1], syms[i][2]) = hist[i]
+
+THEOREM MessageRev == SpecRev => []InvRev
+<1>1. Init => InvRev
+  BY StartW DEF Init, InvRev, CfgInvW, CfgInv
+<1>2. InvRev /\ [NextRev]_vars => InvRev'
+  <2> SUFFICES ASSUME InvRev, [NextRev]_vars PROVE InvRev'
+    OBVIOUS
+  <2>1. CASE UNCHANGED vars
+    BY <2>1 DEF InvRev, vars, After
+  <2>2. ASSUME NEW cp \in Syms, Pop(cp[1], cp[2]) PROVE InvRev'
+    <3> DEFINE c == cp[1]
+    <3> DEFINE p == cp[2]
+    <3> DEFINE n == Len(hist)
+    <3>0. c \in Nat /\ p \in Nat /\ p >= 1 /\ c + p <= N /\ cp = <<c, p>>
+      BY DEF Syms
+    <3>1. CfgInvW(cf) /\ cf \in Cfgs /\ hist \in Seq(Cfgs) /\ syms \in Seq(Syms) /\ Len(syms) = n /\ n \in Nat
+      BY DEF InvRev, CfgInvW, CfgInv
+    <3>2. CfgInvW(DecCfg(cf, c, p)) /\ EncCfg(DecCfg(cf, c, p), c, p) = cf
+      BY <2>2, <3>0, <3>1, CfgStepRev DEF Pop
+    <3>3. /\ cf' = DecCfg(cf, c, p) /\ hist' = Append(hist, cf) /\ syms' = Append(syms, cp)
+      BY <2>2, <3>0 DEF Pop
+    <3>4. /\ hist' \in Seq(Cfgs) /\ syms' \in Seq(Syms) /\ Len(hist') = n + 1 /\ Len(syms') = n + 1
+          /\ hist'[n + 1] = cf /\ syms'[n + 1] = cp
+          /\ \A i \in 1..n : hist'[i] = hist[i] /\ syms'[i] = syms[i]
+      BY <3>1, <3>3
+    <3>5. (hist' # <<>>) /\ hist'[1] = cf0
+      <4>1. CASE n = 0
+        BY <4>1, <3>1, <3>4 DEF InvRev
+      <4>2. CASE n > 0
+        BY <4>2, <3>1, <3>4 DEF InvRev
+      <4>3. QED
+        BY <4>1, <4>2, <3>1
+    <3>6. ASSUME NEW i \in 1..(n + 1)
+          PROVE EncCfg(IF i = n + 1 THEN cf' ELSE hist'[i + 1], syms'[i][1], syms'[i][2]) = hist'[i]
+      <4>1. CASE i = n + 1
+        BY <4>1, <3>0, <3>1, <3>2, <3>3, <3>4
+      <4>2. CASE i = n
+        <5>1. i \in 1..n /\ After(i) = cf /\ hist'[i + 1] = cf /\ i # n + 1
+          BY <4>2, <3>1, <3>4 DEF After
+        <5>2. EncCfg(After(i), syms[i][1], syms[i][2]) = hist[i]
+          BY <5>1 DEF InvRev
+        <5>3. QED
+          BY <5>1, <5>2, <3>4
+      <4>3. CASE i < n
+        <5>1. i \in 1..n /\ i + 1 \in 1..n /\ After(i) = hist[i + 1] /\ i # n + 1
+          BY <4>3, <3>1 DEF After
+        <5>2. EncCfg(After(i), syms[i][1], syms[i][2]) = hist[i]
+          BY <5>1 DEF InvRev
+        <5>3. hist'[i + 1] = hist[i + 1] /\ hist'[i] = hist[i] /\ syms'[i] = syms[i]
+          BY <5>1, <3>4
+        <5>4. QED
+          BY <5>1, <5>2, <5>3
+      <4>4. QED
+        BY <4>1, <4>2, <4>3, <3>1
+    <3>7. QED
+      BY <3>2, <3>3, <3>4, <3>5, <3>6 DEF InvRev, After
+  <2>3. QED
+    BY <2>1, <2>2 DEF NextRev
+<1>3. QED
+  BY <1>1, <1>2, PTL DEF SpecRev
 =============================================================================
